@@ -299,7 +299,9 @@ def run(run, tier, load):
                    'two\'s-complement wrap-around of the backing integer when overflow checks are off']
     cfgs = ['std-debug', 'std-release'] + (['nostd'] if tier == 'thorough' else [])
     for cfg in cfgs:
-        facts = load(cfg)
+        facts = load(cfg, optional=(cfg == 'nostd'))
+        if facts is None:
+            continue
         nops = nwid = 0
         for mod, name, bits, signed in TYPES:
             rep = check_consts(run, facts, cfg, mod, name, bits, signed)
